@@ -563,7 +563,10 @@ class Data(Container, NetCDFHDF5, Files, core.Data):
                     first = type(self)(
                         np.ma.array(first, mask=mask[0]), units, calendar
                     ).datetime_array
-                except (ValueError, OverflowError):
+                except Exception:
+                    # The value can not be converted, for whatever
+                    # reason (unusable units or calendar, out of
+                    # range, not finite, ...)
                     first = "??"
 
             out = f"{open_brackets}{first}{close_brackets}"
@@ -581,7 +584,7 @@ class Data(Container, NetCDFHDF5, Files, core.Data):
                         units,
                         calendar,
                     ).datetime_array
-                except (ValueError, OverflowError):
+                except Exception:
                     first, last = ("??", "??")
 
             if size > 3:
@@ -600,7 +603,7 @@ class Data(Container, NetCDFHDF5, Files, core.Data):
                             units,
                             calendar,
                         ).datetime_array
-                    except (ValueError, OverflowError):
+                    except Exception:
                         middle = "??"
 
                 out = (
